@@ -157,6 +157,8 @@ pub struct Ctx {
     pub assumptions: Mutex<Vec<String>>,
     pub extra: Mutex<BTreeMap<String, Value>>,
     pub only_sub: Option<String>,
+    /// shrink iteration budget of the next run_prop calls (expensive checks lower it)
+    pub shrink_iters: std::sync::atomic::AtomicU32,
 }
 
 pub fn fnv64(data: &[u8]) -> u64 {
@@ -232,6 +234,7 @@ impl Ctx {
             assumptions: Mutex::new(vec![]),
             extra: Mutex::new(BTreeMap::new()),
             only_sub: std::env::var("VERIF_SUB").ok(),
+            shrink_iters: std::sync::atomic::AtomicU32::new(1200),
         }
     }
     pub fn want(&self, sub: &str) -> bool {
@@ -330,6 +333,9 @@ impl Ctx {
         }
         let t0 = Instant::now();
         let nchunks: u64 = if cases >= 64 { 32 } else { 1 };
+        // expensive sub-checks (low shrink budget): once one chunk has found a violation the others stop early
+        let expensive = self.shrink_iters.load(Ordering::Relaxed) < 100;
+        let stop = AtomicBool::new(false);
         let stats = (0..nchunks)
             .into_par_iter()
             .map(|c| {
@@ -343,7 +349,7 @@ impl Ctx {
                 let config = Config {
                     cases: n,
                     failure_persistence: None,
-                    max_shrink_iters: 1200,
+                    max_shrink_iters: self.shrink_iters.load(Ordering::Relaxed),
                     max_global_rejects: 65536,
                     ..Config::default()
                 };
@@ -354,6 +360,9 @@ impl Ctx {
                 let strategy = strat();
                 let res = runner.run(&strategy, |v| {
                     watchdog_touch();
+                    if expensive && !failed.get() && stop.load(Ordering::Relaxed) {
+                        return Ok(());
+                    }
                     let r = if failed.get() {
                         let mut scratch = Stats::new();
                         test(&v, &mut scratch)
@@ -366,6 +375,7 @@ impl Ctx {
                         Ok(()) => Ok(()),
                         Err(f) => {
                             failed.set(true);
+                            stop.store(true, Ordering::Relaxed);
                             Err(TestCaseError::fail(f.what))
                         }
                     }
